@@ -163,26 +163,59 @@ Require Import Gen_readers.
 Definition reader_descr : list (string * ty) := struct_descr ++ [("BlockTables", BlockTables); ("Block", Schema.Block)].
 Definition accs_of (t : ty) : list bool := match t with TMap _ accs _ => accs | _ => [] end.
 (* one member: mandatory on reading <-> Mand / MandNE; the extra non-empty check <-> MandNE; a repeated key accumulates <-> the descriptor
-   lists the member among those read() never resets (Schema.upd_slot) *)
-Fixpoint reader_fields_ok (i : nat) (accs : list bool) (rows : list (Z * (bool * bool * bool))) (fs : fields) : bool :=
+   lists the member among those read() never resets (Schema.upd_slot); the value is read by the call that fits the member's type *)
+(* how the value is read against the member's type: the CdnsDecoder call for scalars (read_unsigned / read_integer / read_bool /
+   read_textstring / read_bytestring - so text and byte strings cannot be confused), some read(dec) for nested structures, times and index
+   lists, dec.read_array(...) with the element's kind for vectors *)
+Fixpoint kind_of (t : ty) : string :=
+  match t with
+  | TU _ => "u" | TI => "i" | TBool => "bool" | TText => "text" | TBytes => "bytes"
+  | TTime | TIdx | TMap _ _ _ => "struct"
+  | TArr e => "array:" ++ kind_of e
+  end.
+Fixpoint reader_fields_ok (i : nat) (accs : list bool) (rows : list (Z * (bool * bool * bool * string))) (fs : fields) : bool :=
   match rows, fs with
   | [], FNil => true
-  | (k, (mand, ne, acc)) :: rows', FCons k' p _ r =>
+  | (k, (mand, ne, acc, kind)) :: rows', FCons k' p t r =>
       Z.eqb k k' &&
       Bool.eqb mand (match p with Mand | MandNE => true | _ => false end) &&
       Bool.eqb ne (match p with MandNE => true | _ => false end) &&
       Bool.eqb acc (nth i accs false) &&
+      String.eqb kind (kind_of t) &&
       reader_fields_ok (S i) accs rows' r
   | _, _ => false
   end.
-(* every reader handles exactly the keys of its descriptor, in the descriptor's order, with the descriptor's presence classes; every
+(* every reader handles exactly the keys of its descriptor, in the descriptor's order, with the descriptor's presence classes; its final
+   check is a plain disjunction of missing-member tests (anything else would let a structure with a missing member through); every
    structure's read() resets the object first - CdnsBlockRead::read_blocktables is the one reader that does not (it is called again for a
    repeated block-tables key, which is why that member accumulates as a whole) *)
 Theorem FT_reader_presence :
   forallb (fun sd => match lookup (fst sd) gen_readers, snd sd with
-                     | Some (resets, rows), TMap _ accs fs =>
-                         reader_fields_ok 0 accs rows fs && Bool.eqb resets (negb (String.eqb (fst sd) "BlockTables"))
+                     | Some (resets, plain_or, rows), TMap _ accs fs =>
+                         reader_fields_ok 0 accs rows fs && Bool.eqb resets (negb (String.eqb (fst sd) "BlockTables")) && plain_or
                      | _, _ => false
                      end) reader_descr = true.
 Proof. vm_compute. reflexivity. Qed.
 Print Assumptions FT_reader_presence.
+
+(* ---------- what the write() methods do per member (Gen_readers.v, same translator) against the descriptors ----------
+   in the order THE CODE writes the members: the key (the enumerator's value), when the member is written - always <-> Mand / MandNE / Always,
+   iff the boost::optional holds a value <-> Opt, iff the vector is not empty <-> NonEmpty - and by which call (text and byte strings,
+   integers, booleans, nested structures, arrays with their element kind) *)
+Fixpoint writer_fields_ok (rows : list (string * (string * string * string))) (fs : fields) : bool :=
+  match rows, fs with
+  | [], FNil => true
+  | (nm, (en, guard, kind)) :: rows', FCons k p t r =>
+      Z.eqb (enum_val en nm) k &&
+      String.eqb guard (match p with Mand | MandNE | Always => "always" | Opt => "opt" | NonEmpty => "nonempty" end) &&
+      String.eqb kind (kind_of t) &&
+      writer_fields_ok rows' r
+  | _, _ => false
+  end.
+Theorem FT_writer_presence :
+  forallb (fun sd => match lookup (fst sd) gen_writers, snd sd with
+                     | Some rows, TMap _ _ fs => writer_fields_ok rows fs
+                     | _, _ => false
+                     end) reader_descr = true.
+Proof. vm_compute. reflexivity. Qed.
+Print Assumptions FT_writer_presence.
